@@ -130,7 +130,7 @@ class Pusher(AbstractMujocoEnv[Float[Array, "..."], Float[Array, "..."]]):
     ) -> Float[Array, "..."]:
         data = state.sim_state
 
-        tips_arm = data.xipos[self.tips_arm_body_id]
+        tips_arm = data.xpos[self.tips_arm_body_id]
         obj = data.xipos[self.object_body_id]
         goal = data.xipos[self.goal_body_id]
 
@@ -154,7 +154,7 @@ class Pusher(AbstractMujocoEnv[Float[Array, "..."], Float[Array, "..."]]):
     ) -> Float[Array, ""]:
         data = next_state.sim_state
 
-        tips_arm = data.xipos[self.tips_arm_body_id]
+        tips_arm = data.xpos[self.tips_arm_body_id]
         obj = data.xipos[self.object_body_id]
         goal = data.xipos[self.goal_body_id]
 
@@ -180,7 +180,7 @@ class Pusher(AbstractMujocoEnv[Float[Array, "..."], Float[Array, "..."]]):
     ) -> dict:
         data = next_state.sim_state
 
-        tips_arm = data.xipos[self.tips_arm_body_id]
+        tips_arm = data.xpos[self.tips_arm_body_id]
         obj = data.xipos[self.object_body_id]
         goal = data.xipos[self.goal_body_id]
 
